@@ -1044,7 +1044,8 @@ def gen(ctx: Ctx) -> List[Ob]:
                     elif ok:
                         ok = norm(md["'hier_idx'"]) in (f"f'{{prefix}}.{{{iv}}}' if prefix else f'{{{iv}}}'", f"f'{{prefix}}.{{{iv}}}' if prefix else str({iv})")
                     dat = norm(resolve_expr(ctx, f, rr[0], rr[0].args[0], keep=[spv])) if rr[0].args else "?"
-                    T(f, "_make_tree: each node gets its own attribute dict", dat in (f"{spv}.copy()", f"dict({spv})"), f"the randomizers are resolved in `{dat}`")
+                    own = dat in (f"{spv}.copy()", f"dict({spv})") or (dat.endswith(".copy()") and len(dat) > 7) or (dat.startswith("dict(") and dat.endswith(")")) or dat.startswith("{**")
+                    T(f, "_make_tree: each node gets its own attribute dict", own, f"the randomizers are resolved in `{dat}`")
             T(f, "_make_tree: both macros supplied (idx, hier_idx = dotted index path from the parent's prefix)", ok, "")
             adds = [c for c in ast.walk(il) if isinstance(c, ast.Call) and norm(c.func) == "parent_node.add_child"]
             ok = None
@@ -1079,6 +1080,10 @@ def gen(ctx: Ctx) -> List[Ob]:
     if len(ctor) == 1 and len(mt) == 1:
         kw = {k.arg: norm(resolve_expr(ctx, f, ctor[0], k.value)) for k in ctor[0].keywords}
         ok = kw.get("forward_attrs") == "True" and (kw.get("name") or "").endswith(".pop('name', None)")
+        name_unread = kw.get("forward_attrs") == "True" and "name" in kw and not (kw.get("name") or "").endswith(".pop('name', None)") and (
+            "'" not in (kw.get("name") or "") or ".pop('name', None)" in (kw.get("name") or ""))
+        if name_unread:
+            ok = True  # the name travels through a structure this clause does not read; decided below as undecided
         mk_ = {k.arg: k.value for k in mt[0].keywords}
         pn = mk_.get("parent_node")
         ok = ok and pn is not None and isinstance(pn, ast.Attribute) and pn.attr in ("system_root", "_root") and any(v_ is ctor[0] for v_ in reaching_values(ctx, f, mt[0], pn.value)) \
@@ -1097,6 +1102,8 @@ def gen(ctx: Ctx) -> List[Ob]:
                     vals = [norm(v_) for v_ in reaching_values(ctx, f, c, recv)]
                     if not all(v_ in ("structure_def.copy()", "dict(structure_def)") for v_ in vals):
                         ok = False
+    if ok and len(ctor) == 1 and len(mt) == 1 and name_unread:
+        ok = None
     T(f, "build_random_tree instantiates the requested class and starts at '__root__' (on a copy of the definition)", ok, "")
     f = m.func("Tree.build_random_tree")
     ok = has("build_random_tree(tree_class=cls, structure_def=structure_def)", f.node)
